@@ -252,7 +252,8 @@ PROPS = {
         ],
         rule="Each case takes a valid 3..6-chromosome input (>= 3 items per chromosome) and injects exactly one violation: "
         "bigWig {out-of-order, overlapping, start > end, end > chromosome length}, bigBed {out-of-order starts, start > "
-        "end, start >= chromosome length}, both {unknown chromosome, chromosomes out of order under ALL, malformed line: "
+        "end, start >= chromosome length}, both {unknown chromosome, chromosomes out of order under ALL, one stray line of "
+        "another chromosome inside a run (parallel source: real index or a coarse index of the main runs only), malformed line: "
         "missing / non-numeric / negative field, empty input} at the {first, middle, last} item of the {first, middle, "
         "last} chromosome, on the iterator, text-file and index_chroms+parallel sources, one- and two-pass, random "
         "option vectors; or it is a valid degenerate input {only zero-length items in the whole file / in one chromosome, "
